@@ -269,7 +269,11 @@ def run(chk):
             for name, fn in (("overwrite-parent-prefix", lambda c: c.req("PUT", parent, body=OTHER)),
                              ("copy-onto-parent-prefix", lambda c: c.req("PUT", parent, headers={"x-amz-copy-source": "%s/other" % sc.bk})),
                              ("multipart-complete-onto-parent-prefix", cmu_parent),
-                             ("delete-parent-prefix", lambda c: c.req("DELETE", parent)), ("delete-parent-directory-object", lambda c: c.req("DELETE", parent + "/"))):
+                             ("delete-parent-prefix", lambda c: c.req("DELETE", parent)), ("delete-parent-directory-object", lambda c: c.req("DELETE", parent + "/")),
+                             # the parent uploaded as a directory object of its own, its metadata replaced, and deleted again (its attributes go, not those of the keys below it)
+                             ("put-parent-directory-object", lambda c: c.req("PUT", parent + "/", body=b"", headers={"x-amz-meta-kind": "dir"})),
+                             ("reput-parent-directory-object", lambda c: c.req("PUT", parent + "/", body=b"", headers={"x-amz-meta-other": "dir2"})),
+                             ("delete-uploaded-parent-directory-object", lambda c: c.req("DELETE", parent + "/"))):
                 r = fn(R)
                 st = sc.lock_state(); lost = sc.intact()
                 r2 = clients["usr"].req("DELETE", "/%s/%s" % (sc.bk, sc.key)); lost = lost or sc.intact()
